@@ -98,7 +98,7 @@ def run(ctx, spec):
                       no_input=True)
     if not res["ok"] and concrete == 0:
         ctx.violation("proof obligation no longer checks (%s %s)" % (res["stage"], res.get("failed_at", "")),
-                      {"theorem_file": "coq/" + spec["prop_file"], "stage": res["stage"], "failed_at": res.get("failed_at"),
+                      {"theorem_file": spec["prop_file"], "stage": res["stage"], "failed_at": res.get("failed_at"),
                        "log_tail": res["log"][-3000:],
                        "searched": "%d structures through the %s oracle, none fails" % (len(usable), ctx.prop)},
                       no_input=True)
@@ -109,7 +109,7 @@ def run(ctx, spec):
     nontrivial = {c["Text"] + str(c.get("Weight")) for c, o in usable if spec["nontrivial"](c, o)}
     ctx.coverage = {
         "obligations": res["obligations"], "discharged": res["discharged"],
-        "checker_cmd": "make -C coq %s && coqc %s (Coq 8.16.1, full .vo build)" % (spec["prop_file"][:-2] + ".vo", spec["prop_file"]),
+        "checker_cmd": "make -C coq <%s>.vo && coqc <each> (Coq 8.16.1, full .vo build)" % (spec["prop_file"],),
         "trusted_base": C.standard_trusted_base(res) + spec.get("trusted_extra", []),
         "theorems": res.get("names", []),
         "traces_validated_against_impl": validated,
